@@ -362,10 +362,22 @@ theorem toc_spec (env : Env) (st : St) (obj : Obj) :
     · split
       · exact ⟨hf, rfl⟩
       · exact ⟨hf, rfl⟩
-      · refine ⟨Frame.trans hf ?_, rfl⟩
-        unfold safeToStan
-        exact frame_safeToStanOut _ _ _ _ _ _ _ _ _ (fun h => by cases h) (fun h => by cases h)
+      · split
+        · exact ⟨hf, rfl⟩
+        · refine ⟨Frame.trans hf ?_, rfl⟩
+          unfold safeToStan
+          exact frame_safeToStanOut _ _ _ _ _ _ _ _ _ (fun h => by cases h) (fun h => by cases h)
     · exact ⟨hf, rfl⟩
+
+/-- e05762e: a docstring that is shown as plain text because its own renderer fails has no table of contents -/
+theorem toc_none_when_render_fails (env : Env) (st : St) (obj : Obj) (pd : PD) (e : Exc)
+    (hpd : ((ensureParsed env st obj).2.objs obj).parsed = some pd) (hraise : pdToStan env pd = .raises e) :
+    (formatToc env st obj).1.isOk = true ∧
+    (match (formatToc env st obj).1 with | .ok none => True | _ => False) := by
+  simp only [formatToc, hpd]
+  split
+  · split <;> simp [Res.isOk, hraise]
+  · simp [Res.isOk]
 
 /-- HISTORICAL (before c422501): the old `format_toc` raised exactly when `get_toc` did -/
 theorem toc_old_spec (env : Env) (st : St) (obj : Obj) :
@@ -1168,8 +1180,10 @@ theorem formatToc_tail (env : Env) (st : St) (obj : Obj) :
       · exact ⟨rfl, rfl, fun _ => rfl⟩
       · exact ⟨rfl, rfl, fun _ => rfl⟩
       · rename_i toc _
-        obtain ⟨a, b, _, d⟩ := safeToStanOut_noreport (ensureParsed env st obj).2 (pdToStan env toc) obj .broken 0
-        exact ⟨a, b, d⟩
+        split
+        · exact ⟨rfl, rfl, fun _ => rfl⟩
+        · obtain ⟨a, b, _, d⟩ := safeToStanOut_noreport (ensureParsed env st obj).2 (pdToStan env toc) obj .broken 0
+          exact ⟨a, b, d⟩
     · exact ⟨rfl, rfl, fun _ => rfl⟩
 
 theorem splitFields_log : ∀ (fs : List Field) (st : St),
